@@ -3,7 +3,7 @@ import ast
 import re
 
 from ..tyob import *  # noqa
-from ..tyob import analyse, expect, item, unmodelled_in
+from ..tyob import sibling_defaults, analyse, expect, item, unmodelled_in
 from ..program import norm_stmt
 
 L = "eqsig.loader."
@@ -169,6 +169,8 @@ def run(chk):
         org = b[values].origin
         chk.ob("R-FMT-FWD", c3 + ".arg[values][identity]", "the signal's values themselves are written", all(t.endswith(".values") for t in org) and bool(org),
                derived="origin %s" % sorted(org), loc=calls[0].loc)
+    sibling_defaults(chk, "R-FMT-TYPE", ["eqsig.loader.load_sig", "eqsig.loader.load_asig"], neutral={"m": 1.0, "load_label": False},
+                     label="load_sig~load_asig")
     chk.floor("R-FMT-PREC", 3)
     chk.floor("R-FMT-LAYOUT", 6)
     chk.floor("R-FMT-LOSSY", 3)
